@@ -111,3 +111,21 @@ impl<'a> Lexer<'a> {
             final(self).cursor@ == old(self).cursor@, r.end == end, r.newlines == 0, r.new_line_start is None
     { unimplemented!() }
 }
+
+/// what scan_apostrophe_suffix needs (it is scan_for_text twice): a valid position at or after the line start in force
+pub open spec fn suffix_scan_ok(lx: Lexer<'_>, result: LexResult<'_>) -> bool {
+    sp_len(lx.buf) <= u32::MAX && slice_ok(lx.buf, result.end as int, sp_len(lx.buf))
+    && (match result.new_line_start { Some(n) => n, None => lx.line_start }) <= result.end
+}
+impl<'a> Lexer<'a> {
+    /// scan_for_text(start, "'s", ..).or_else(|| scan_for_text(start, "'re", ..)) — contract of scan_for_text (proved above)
+    #[verifier::external_body]
+    pub fn scan_apostrophe_suffix(&self, start: usize) -> (r: Option<LexResult<'a>>)
+        requires sp_len(self.buf) <= u32::MAX, slice_ok(self.buf, start as int, sp_len(self.buf)), self.line_start <= start,
+        ensures match r {
+            Some(l) => l.token.range.start == (SourceLocation { line: self.line, column: (start - self.line_start) as u32 })
+                && l.end >= start && l.newlines == 0 && l.new_line_start is None && (l.token.id is ApostropheS || l.token.id is ApostropheRE),
+            None => true,
+        }
+    { unimplemented!() }
+}
